@@ -143,7 +143,7 @@ def parse_tlc_log(text):
 def run_tlc_replay(ctx, name, d, workers=12, xmx="12g", timeout=1500, replay=True, simulate=None):
     """TLC on the slice in `d`; emitted scripts are piped into `fv replay`."""
     sim = f"-simulate num={simulate[0]} -depth {simulate[1]}" if simulate else ""
-    tlc = (f"timeout {timeout} java -XX:+UseParallelGC -Xmx{xmx} -cp {JAR} tlc2.TLC -workers {workers} {sim} "
+    tlc = (f"timeout {timeout} java -XX:+UseParallelGC -Xss256m -Xmx{xmx} -cp {JAR} tlc2.TLC -workers {workers} {sim} "
            f"-metadir {d}/states -noGenerateSpecTE -config MC.cfg MC.tla 2>&1")
     if replay:
         cmd = (f"{tlc} | tee >(grep -av '^\"{{' > tlc.log) | {FV} replay --threads 8 --fail-dir {d}/fails --sample {d}/sample.json --struct-out {d}/structs.ndjson --struct-max 4000 "
@@ -179,10 +179,19 @@ def first_script(d):
     return None
 
 
+# observables that no property statement names unless its projection lists them explicitly:
+# the error *variant* and the chunking of random-source requests (DESIGN 5.3: drift, not violation)
+NEVER_IMPLIED = {"err", "rng_unused", "rng_overrun", "rng_mismatch", "rng_unscripted", "stage", "blocked_drift"}
+
+
 def classify(mism, fatal):
     """fatal: set of 'op:key' or '*:key' patterns that belong to the property's projection."""
-    k = f"{mism.get('op')}:{mism.get('key')}"
-    return k in fatal or f"*:{mism.get('key')}" in fatal or f"{mism.get('op')}:*" in fatal or "*:*" in fatal
+    op, key = mism.get("op"), mism.get("key")
+    if f"{op}:{key}" in fatal or f"*:{key}" in fatal:
+        return True
+    if key in NEVER_IMPLIED:
+        return False
+    return f"{op}:*" in fatal or "*:*" in fatal
 
 
 def model_stage(ctx, slices, fatal, module=None):
@@ -275,7 +284,7 @@ def sample_script(d):
 WITNESS_Q = 23099
 REAL_SUITES = ["ed25519", "ed448", "p256", "ristretto255", "secp256k1", "secp256k1-tr"]
 GENERIC_KEYS = {"ok", "err", "culprits", "min", "max", "id", "same", "roundtrip_ok", "singles", "plains",
-                "inner_comm_eq", "commit_same", "keyed_by_own_id", "stage"}
+                "inner_comm_eq", "commit_same", "keyed_by_own_id", "stage", "delta_ids"}
 ORDERED_KEYS = set()
 
 
